@@ -1,5 +1,6 @@
 import CatiiProofs.StoreProofs
 import CatiiModel.Gen.Purity
+import CatiiModel.Gen.PurityMethods
 /-!
 # C17 — aggregations are pure: inputs untouched, no hidden state between calls
 
@@ -12,14 +13,24 @@ may-alias analysis `check`: no in-place write goes through a variable that may n
 buffer.  `checked_program_preserves_inputs` (soundness of the analysis w.r.t. a heap semantics)
 turns that into: every input buffer is unchanged after the constructor, whatever values are written.
 Removing a `.copy()` or writing through an `asarray` alias makes the regenerated program fail.
+`Gen.methodProgs` does the same for the evaluation itself: `get_initial_regions`, `fill_func` / `fill` (closures
+included), `reduce` and their helper methods of every aggregate function class, one program per control-flow path,
+with every data attribute of `self` the method reads (the fact, weights, validity, derived arrays) and every array
+parameter counted as caller-owned and only `regions` / `cube` / `coordinates` as library-owned; an array returned by
+`get_initial_regions` counts as written (it becomes a region).  `all_methods_pass_the_alias_check` and
+`methods_preserve_arguments` say: no path of any of these methods writes through a name that may denote a caller's
+buffer (`adjust_zeros(x)` and `_compute_common_cells_from_marginal_diffs(x)` count as writes to `x`; the
+diagnostic `tracing` dictionary is outside the property).
 
 *No hidden state.*  In the cube model (`Cube.measureCube`, `Agg.ccubeAgg`) result regions are
 values local to one evaluation, so independence of the aggregates computed together, of their
 order, and of earlier calls is definitional there; the assurance for the real code is the
 correspondence (C03) plus the harness of this property (calculate(list)[i] vs calculate([f])[0]
 over all permutations, repeated calls, re-used function objects, byte-for-byte argument
-comparison, shares_memory).  **Partial**: `fill`/`reduce` methods and the index methods are not
-translated; global interpreter state (warnings filters, tracing dicts) is outside the model.
+comparison, shares_memory).  **Partial**: the cube drivers (`ccube.calculate`, `xcube.calculate`) and the index
+methods are not translated; loops are analysed for zero or one pass (no loop-carried aliasing); the view/copy
+classification of NumPy calls is the translator's; global interpreter state (warnings filters, tracing dicts) is
+outside the model.
 -/
 namespace Catii.C17
 open Catii.Store
@@ -42,8 +53,26 @@ theorem constructors_preserve_arguments (w : Nat → Nat) (k : Nat) (s : St) (n 
     ∀ b < k, (exec w p.2.2 s n).heap b = s.heap b :=
   checked_program_preserves_inputs w k p.2.2 p.2.1 s n (all_constructors_pass_the_alias_check p hp) hcov hk
 
+/-- the same for the evaluation: every control-flow path of `get_initial_regions`, `fill_func`/`fill` (with their
+closures), `reduce` and their helpers, of every aggregate function, passes the may-alias check -/
+theorem all_methods_pass_the_alias_check :
+    ∀ p ∈ Gen.methodProgs, check p.2.2 p.2.1 = true := by
+  decide +kernel
+
+/-- hence no evaluation step writes into a buffer the caller owns: the fact, weights and validity arrays handed to
+an aggregate function (and whatever the constructor derived from them without copying) are unchanged afterwards -/
+theorem methods_preserve_arguments (w : Nat → Nat) (k : Nat) (s : St) (n : Nat)
+    (p : String × List Var × List Instr) (hp : p ∈ Gen.methodProgs)
+    (hcov : ∀ v, s.env v < k → v ∈ p.2.1) (hk : k ≤ s.next) :
+    ∀ b < k, (exec w p.2.2 s n).heap b = s.heap b :=
+  checked_program_preserves_inputs w k p.2.2 p.2.1 s n (all_methods_pass_the_alias_check p hp) hcov hk
+
 /-! Non-vacuity: the analysis rejects the constructor with its defensive copy removed. -/
 example : check [.alias "summables" "arr", .write "summables"] ["arr"] = false := by decide
 example : check [.alias "summables" "arr", .fresh "summables", .write "summables"] ["arr"] = true := by decide
+-- a fill that zeroes the caller's array in place, and a region that IS a caller's array, are rejected
+example : check [.alias "counts" "regions", .write "self.countables", .write "counts"] ["self.countables"] = false := by decide
+example : check [.alias "counts" "self.countables", .write "counts"] ["self.countables"] = false := by decide
+example : Gen.methodProgs.length > 400 := by decide +kernel
 
 end Catii.C17
